@@ -160,42 +160,7 @@ func runC20(r *rng) (string, string) {
 	}
 	down := map[int]bool{}
 	for j, nj := 0, 3+r.intn(30); j < nj && !stopped; j++ {
-		switch r.intn(13) {
-		case 12:
-			// a client that goes away while its reply is on the way: the reply cannot be written; the request was counted
-			// by its outcome all the same, once
-			if len(down) > 0 {
-				continue
-			}
-			sc := dialProxy(sp.addr)
-			res, alive := ask(sc, bulkArr([]byte("ping")))
-			if !alive {
-				events = append(events, "r")
-				sc.close()
-				continue
-			}
-			events = append(events, "a", "q:ping:"+res)
-			cl.mu.Lock()
-			for _, nd := range cl.nodes {
-				nd.delayMs = 25
-			}
-			cl.mu.Unlock()
-			before := sp.counter("downstream.rq_total")
-			sc.send(bulkArr([]byte("get"), []byte("nobody-waits-for-this")).bytes(), nil)
-			waitFor(2*time.Second, func() bool { return sp.counter("downstream.rq_total") > before }) // it has been read
-			if tc, ok := sc.c.(*net.TCPConn); ok {
-				tc.SetLinger(0) // a reset, so that the reply cannot even be handed to the kernel
-			}
-			sc.close()
-			events = append(events, "q:get:s", "x")
-			finished++
-			waitFor(2*time.Second, func() bool { return sp.counter("downstream.cx_destroy_total") >= uint64(finished) })
-			cl.mu.Lock()
-			for _, nd := range cl.nodes {
-				nd.delayMs = 0
-			}
-			cl.mu.Unlock()
-			settle(40 * time.Millisecond)
+		switch r.intn(12) {
 		case 0, 1:
 			sc := dialProxy(sp.addr)
 			res, alive := ask(sc, bulkArr([]byte("ping")))
